@@ -358,8 +358,70 @@ def _holds(pc, vals):
     return s.check() == z3.sat
 
 
+# ------------------------------------------------------------------ real-valued input fields (pupil masks, amplitudes)
+def replay_typed_field(prop, N, vals, dtype_name):
+    op = _op()
+    fn = getattr(op, prop)
+    rng = numpy.random.RandomState(11)
+    u = numpy.round(rng.uniform(0, 2, size=(N, N)) * 4) / 4
+    if dtype_name in ("bool", "int64"):
+        u = (u > 1).astype(dtype_name)
+        if not u.any():
+            u.flat[0] = 1
+    ut = u.astype(dtype_name)
+    try:
+        a = numpy.asarray(fn(*_concrete_args(prop, ut, vals)))
+    except Exception as e:
+        return True, dict(what="%s raises %s for a %s field" % (prop, type(e).__name__, dtype_name))
+    b = numpy.asarray(fn(*_concrete_args(prop, ut.astype(complex), vals)))
+    e = relerr(a, b)
+    return e > 1e-9, dict(what="%s of a %s field differs from %s of the same values as complex128" % (prop, dtype_name, prop), N=N, params=vals, rel_err=e)
+
+
+def case_typed_field(ctx, prop, N, dtype_name):
+    """a real (float / int / bool) input field - a pupil mask or an amplitude - propagates like the same values stored as
+    complex128: no buffer or factor may be cast 'like the input'"""
+    St.typed_casts = True
+    seq = dict(wvl=Fr(1, 2), d1=Fr(1), d2=Fr(2), z=Fr(4), f=Fr(4))
+    op = _op()
+    fn = getattr(op, prop)
+    ctx.encoded(fn)
+    ctx.bounds.update(N=N, field="symbolic real NxN of dtype %s" % dtype_name, parameters={k: str(v) for k, v in seq.items()})
+    U = core.typed(symarr("U", (N, N)), dtype_name)
+    Uc = numpy.array([e for e in U.flat], dtype=object).reshape(N, N).view(core.SA)
+    pre = []
+    if dtype_name in ("bool", "int64"):
+        pre = [z3.Or(z(e.re) == 0, z(e.re) == 1) for e in U.flat]
+    sv = {k: Sym(v) for k, v in seq.items()}
+    vals = {k: float(v) for k, v in seq.items()}
+    rp = lambda m: replay_typed_field(prop, N, vals, dtype_name)
+    ctx.fallback = rp
+
+    import aotools.fouriertransform as ftm
+
+    def go():
+        with npx.symbolic(op, ftm):
+            return numpy.asarray(fn(*_concrete_args(prop, U.copy(), sv)), dtype=object), numpy.asarray(fn(*_concrete_args(prop, Uc.copy(), sv)), dtype=object)
+    St.fork_div = True
+    paths, ex = core.run_paths(go, pre, max_paths=32)
+    St.fork_div = False
+    ctx.explored(ex, len(paths))
+    for pi, pth in enumerate(paths):
+        if pth.exc is not None:
+            if isinstance(pth.exc, ZeroDivisionError):
+                continue
+            ctx.prove("path%d: %s raises %s for a %s field" % (pi, prop, type(pth.exc).__name__, dtype_name), pre + pth.pc, z3.BoolVal(False), replay=rp, axioms=False)
+            continue
+        a, b = pth.out
+        ctx.prove("path%d: %s of a %s field = %s of the same values as complex128" % (pi, prop, dtype_name, prop), pre + pth.pc,
+                  all_eq(a, b) if a.shape == b.shape else z3.BoolVal(False), replay=rp, timeout_ms=60000, replay_on_unknown=True)
+
+
 def build_cases(tier):
     cases = []
+    for prop in PROPS:
+        for dt in (("float64",) if tier == "quick" else ("float64", "bool", "int64", "float32")):
+            cases.append(("typed-field/%s/N=2/%s" % (prop, dt), case_typed_field, dict(prop=prop, N=2, dtype_name=dt)))
     sizes = [2, 4, 8] if tier == "quick" else [2, 4, 6, 8, 12, 16]
     for prop in PROPS:
         for N in sizes:
